@@ -6,6 +6,8 @@ states), `null` is `None`.
 -/
 import GT.Base.JsonQ
 import GT.Model.RepAut
+import GT.Lemmas.RepAutGuard
+import GT.Lemmas.RepAutLangStar
 import GT.Driver.C05
 open Lean GT.J GT GT.RepW
 namespace GT.Driver.C06
@@ -34,6 +36,24 @@ def outAcc {n : ℕ} (r : AccRes n ℚ) : Json :=
   Json.mkObj [("mats", .arr (r.mats.map (outMat qIO)).toArray),
               ("words", .arr (r.words.map Json.str).toArray)]
 
+/-- running the calls `cs` and then `cs'` on the dict left behind is running `cs ++ cs'`: the loop of `runOp`
+(one `runCalls a [c] d` per call, the dict threaded) computes `runCalls` of the whole kept sequence -/
+theorem runCalls_append {V : Type} [DecidableEq V] {n : ℕ} {R : Type} [Inhabited R] [CommRing R]
+    (ρ : Rep n R) (a : Aut V) (cs cs' : List (Rep.Call V)) (d : Rep.PreDict V n R) :
+    ρ.runCalls a (cs ++ cs') d =
+      ((ρ.runCalls a cs d).1 ++ (ρ.runCalls a cs' (ρ.runCalls a cs d).2).1,
+       (ρ.runCalls a cs' (ρ.runCalls a cs d).2).2) := by
+  induction cs generalizing d with
+  | nil => rfl
+  | cons c cs ih => simp only [List.cons_append, Rep.runCalls, ih]
+
+/-- a single call through `runCalls` is `automatonAcceptedD` -/
+theorem runCalls_single {V : Type} [DecidableEq V] {n : ℕ} {R : Type} [Inhabited R] [CommRing R]
+    (ρ : Rep n R) (a : Aut V) (c : Rep.Call V) (d : Rep.PreDict V n R) :
+    ρ.runCalls a [c] d =
+      ([(ρ.automatonAcceptedD a c.length c.maxlen c.withWords c.startState c.endState d c.edgeWords).1],
+       (ρ.automatonAcceptedD a c.length c.maxlen c.withWords c.startState c.endState d c.edgeWords).2) := rfl
+
 /-- a sequence of `automaton_accepted` calls sharing (or not) the `precomputed` dict -/
 def runOp (j : Json) : J.R Json := do
   let n ← natf j "n"
@@ -45,17 +65,56 @@ def runOp (j : Json) : J.R Json := do
   for c in calls do
     let keep := (optBool c "keep").getD false
     let d0 : Rep.PreDict Nat n ℚ := if keep then dict else {}
-    let (r, d1) := ρ.automatonAcceptedD a (← natf c "L") ((optBool c "maxlen").getD true)
-      ((optBool c "with_words").getD false) (← optNat c "start") (← optNat c "end") d0
-      ((optBool c "edge_words").getD true)
+    -- one public call on the dict `d0`, through `Rep.runCalls` (the definition `precomputed_guard_calls` is
+    -- about); `runCalls_append` below: call after call on the running dict is `runCalls` of the whole list
+    let call : Rep.Call Nat := ⟨← natf c "L", (optBool c "maxlen").getD true,
+      (optBool c "with_words").getD false, ← optNat c "start", ← optNat c "end",
+      (optBool c "edge_words").getD true⟩
+    let (rs, d1) := ρ.runCalls a [call] d0
     dict := d1
-    match r with
+    match rs.headD (.error "no-result") with
     | .ok res =>
       outs := outs.push (Json.mkObj [("ok", outAcc res),
         ("memo_keys", .arr (d1.memo.map fun kv => Json.arr #[toJson kv.1.1,
             match kv.1.2 with | none => .null | some v => toJson v]).toArray)])
     | .error e =>
       outs := outs.push (Json.mkObj [("err", .str e)])
+  return .arr outs
+
+/-- the memo-free specification `Rep.topSpec` of every call of a `c06.run` scenario (the dict plays no role):
+what `automatonAccepted_agrees` / `precomputed_guard_calls` say each returned value is -/
+def specOp (j : Json) : J.R Json := do
+  let n ← natf j "n"
+  let ρ ← build qIO n j
+  let a ← autOf (← field j "aut")
+  let calls ← arr (← field j "calls")
+  let mut outs : Array Json := #[]
+  for c in calls do
+    let maxlen := (optBool c "maxlen").getD true
+    let ww := (optBool c "with_words").getD false
+    let ew := (optBool c "edge_words").getD true
+    let en ← optNat c "end"
+    let L ← natf c "L"
+    let st ← optNat c "start"
+    -- the reference path language of the call (`accepted_words_*_any`, `automatonAccepted_words_*_any`): joined label
+    -- words of the paths from the start state resp. from a start vertex to the end state (there under `Aut.WF`)
+    let strs (l : List String) : Json := .arr (l.map Json.str).toArray
+    let wf : Bool := decide (a.graph.map Prod.fst).Nodup && decide a.starts.Nodup
+    let lang : Json := match en with
+      | some e => if wf then strs (Rep.endLangJ ρ.joinW a maxlen L e) else .null
+      | none => match (st <|> a.starts.head?) with
+        | some s => strs (Rep.startLangJ ρ.joinW a maxlen L s)
+        | none => .null
+    -- the same language by plain concatenation (`startLang` / `endLang`), what a `parse_simple` representation returns
+    let lang0 : Json := if !ρ.parseSimple then .null else match en with
+      | some e => if wf then strs (Rep.endLang a maxlen L e) else .null
+      | none => match (st <|> a.starts.head?) with
+        | some s => strs (Rep.startLang a maxlen L s)
+        | none => .null
+    match ρ.topSpec a L maxlen ww st en ew with
+    | .ok pairs => outs := outs.push (Json.mkObj [("ok", outAcc (Rep.toRes (Rep.topOpts maxlen ww en ew) pairs)),
+        ("lang", lang), ("lang0", lang0)])
+    | .error e => outs := outs.push (Json.mkObj [("err", .str e)])
   return .arr outs
 
 def outWS (l : List (String × Nat)) : Json :=
@@ -105,6 +164,6 @@ def freeWordsOp (j : Json) : J.R Json := do
   return .arr (ws.map Json.str).toArray
 
 def ops : List (String × Handler) :=
-  [("c06.run", runOp), ("c06.enum", enumOp), ("c06.views", viewsOp), ("c06.free", freeOp),
+  [("c06.run", runOp), ("c06.spec", specOp), ("c06.enum", enumOp), ("c06.views", viewsOp), ("c06.free", freeOp),
    ("c06.freered", freeRedOp), ("c06.freewords", freeWordsOp)]
 end GT.Driver.C06
